@@ -223,6 +223,8 @@ def exec_image(image, name, fast_load, get_code, count_steps, tag="r"):
         except audit.StepBudgetExceeded as e:
             rec["outcome"] = "steps"
             rec["site"] = str(e)
+        except _WallGuard:
+            raise
         except BaseException as e:
             rec["outcome"] = "exception"
             rec["exc"] = type(e).__name__
@@ -235,7 +237,10 @@ def exec_image(image, name, fast_load, get_code, count_steps, tag="r"):
         sys.stdout, sys.stderr = old_out, old_err
     rss1 = _maxrss_kb()
     st = audit.STATE
-    rec["fast_path"] = bool(st.fast_path)
+    fast = bool(st.fast_path)
+    if sys.version_info < (3, 9) and predicts_fast_path(image, get_code):
+        fast = True  # no marshal.loads audit event before 3.9: the magic decides
+    rec["fast_path"] = fast
     if clock:
         rec["steps"] = clock.steps
     rec["stdout_bytes"] = sink_out.n
@@ -259,7 +264,7 @@ def exec_image(image, name, fast_load, get_code, count_steps, tag="r"):
         if foreign:
             v = {"class": "import", "detail": "; ".join(foreign[:3])}
     if v is None and rss1 - rss0 > RSS_LIMIT_KB:
-        v = {"class": "memory", "fast_path": bool(st.fast_path),
+        v = {"class": "memory", "fast_path": fast,
              "detail": "resident set grew by %d KiB for a %d-byte file" % (rss1 - rss0, len(image))}
     rec["violation"] = v
     result = None
@@ -297,10 +302,36 @@ def _compact(plan, rec):
     }
 
 
-def _batch_child(emit, indices):
+WALL_GUARD_S = 3.0
+SLOW = {"seen": 0}  # per worker process: confirmed slow runs so far (only steers cost, never a verdict)
+
+
+class _WallGuard(BaseException):
+    pass
+
+
+def _on_alarm(signum, frame):
+    raise _WallGuard()
+
+
+def _batch_child(emit, indices, force_steps=False):
+    import signal
+
+    signal.signal(signal.SIGALRM, _on_alarm)
     for i in indices:
         p = plan_run(i)
-        rec = exec_image(p.image, p.name, p.fast_load, p.get_code, p.count_steps)
+        # cheap wall guard so that a hang costs seconds, not the batch watchdog; it is never a verdict:
+        # the parent re-executes the run alone under the deterministic step clock
+        signal.setitimer(signal.ITIMER_REAL, WALL_GUARD_S)
+        try:
+            rec = exec_image(p.image, p.name, p.fast_load, p.get_code, p.count_steps or force_steps)
+        except _WallGuard:
+            rec = {"outcome": "wall_guard", "violation": None, "site": None, "steps": None, "fast_path": False,
+                   "exc": None}
+            sys.settrace(None)
+            audit.disarm()
+        finally:
+            signal.setitimer(signal.ITIMER_REAL, 0)
         emit(_compact(p, rec))
     return len(indices)
 
@@ -443,6 +474,8 @@ def run_shard(shard):
     agg = new_agg()
     t0 = time.time()
     pending = list(range(lo, hi))
+    slow_seen = SLOW["seen"]  # after two confirmed slow runs everything else in this worker runs under the step clock
+    has_clock = sys.version_info >= (3, 9)
     while pending:
         # faulted host-magic images go alone: only C marshal can corrupt the process
         batch = []
@@ -460,10 +493,31 @@ def run_shard(shard):
         if not batch:
             continue
         got = []
-        r = core.fork_call(_batch_child, (batch,), timeout=30.0 + 3.0 * len(batch), stream=True,
+        r = core.fork_call(_batch_child, (batch, slow_seen >= 2), timeout=30.0 + 3.0 * len(batch), stream=True,
                            on_record=got.append)
         for c in got:
+            if c.get("o") == "wall_guard":
+                # not a verdict: the deterministic step clock decides, in isolation
+                p = plan_run(c["i"])
+                if not has_clock and slow_seen >= 3:
+                    # a node without step clock has already reported this class three times: do not spend
+                    # another 25 s of wall on each further instance
+                    _probe(agg, "probable stall not re-confirmed (no step clock on this host)")
+                    c["o"] = "unconfirmed_slow"
+                    account(agg, c, None)
+                    continue
+                rec = run_single_image(p.image, p.name, p.fast_load, p.get_code, True, wall=25.0)
+                c2 = _compact(p, rec)
+                if c2.get("v") is not None:
+                    slow_seen += 1
+                else:
+                    agg["probes"]["wall guard tripped but run is within its step budget"] = \
+                        agg["probes"].get("wall guard tripped but run is within its step budget", 0) + 1
+                account(agg, c2, p)
+                continue
             if c.get("v") is not None:
+                if c["v"].get("class") in ("not_prompt", "stall"):
+                    slow_seen += 1
                 # re-confirm in isolation (fresh fork); the isolated verdict is the verdict
                 p = plan_run(c["i"])
                 rec = run_single_image(p.image, p.name, p.fast_load, p.get_code, True)
@@ -491,6 +545,7 @@ def run_shard(shard):
             account(agg, c2, p)
             pending = rest[1:] + pending
     agg["wall"] = time.time() - t0
+    SLOW["seen"] = slow_seen
     return agg
 
 
@@ -860,7 +915,9 @@ def report_violations(master, viols, findings, out_lines, evidence_v):
         pred = _pred_for(sig, x["name"], x["fast_load"], x["get_code"])
         img = x["image"]
         info = {"strategy": ["not minimised"], "tests": 0}
-        if pred(img):
+        if sig["class"] == "stall":
+            info = {"strategy": ["not minimised: every test of a stall costs its full wall-clock bound"], "tests": 0}
+        elif pred(img):
             try:
                 img, info = minimise.minimise_image(x.get("base"), x["image"], pred)
             except Exception as e:
